@@ -113,6 +113,10 @@ K_SYS = {
     "reports": H("k_c02_poll_reports_ready_fd", "sys", "one registered fd with symbolic interest/mode/readiness: Poll::poll "
                  "returns one event with the registered token and the readiness cut to the interest iff ready; a second "
                  "poll re-reports only in Level mode", ["Poll::poll", "Poll::register"], "1 fd, unwind 3", stub=True),
+    "rearm": H("k_c02_rearm_and_new_transition", "sys", "after a first report: Level keeps reporting; Edge reports again iff the "
+               "readiness went away and came back or the fd was re-registered; OneShot reports again iff re-registered; the "
+               "event carries the token of the latest (re)registration", ["Poll::poll", "Poll::register", "Poll::reregister"],
+               "1 fd READ interest, symbolic mode/tokens/blink/rearm, unwind 3", stub=True),
     "clamp": H("k_c12_timeout_clamp", "sys", "Poll::poll waits min(timeout, earliest deadline - now): zero for an expired "
                "timer, user timeout unchanged without timers, until the deadline without timeout, forever only with "
                "neither; zero timeout never blocks; timer event in the batch iff deadline reached",
@@ -222,7 +226,7 @@ P("C01", "proof",
   [K_LIST[0], K_GEN["match"], K_TIMER["match"], K_PING["decode"], K_SYS["reports"], K_SYS["factory"], K_LOOP["it"]],
   bounds="3 slots; full 64-bit token space; 1 fd",
   outside="composition over histories (DESIGN 2); user sources that ignore their token; kernel delivering a key never registered")
-P("C02", "proof", [K_SYS["cvt_mode"], K_SYS["cvt_interest"], K_SYS["table"], K_SYS["reports"], K_SYS["clamp"], K_SYS["selftest"]],
+P("C02", "proof", [K_SYS["cvt_mode"], K_SYS["cvt_interest"], K_SYS["table"], K_SYS["reports"], K_SYS["rearm"], K_SYS["clamp"], K_SYS["selftest"]],
   bounds="1 fd, 0-1 timer, all modes/interests",
   outside="that the kernel reports level/edge/oneshot as documented; batches larger than the poller buffer")
 P("C03", "proof", [K_PING["decode"], K_PING["inc"]], bounds="all 2^64 counter values",
@@ -351,6 +355,8 @@ M_TM = {
                "all paths (loop-free)", replay=["c05_timer_scenarios", "c01_routing_scenarios"]),
 }
 M_POLL = M("poll", OB.ob_poll, OB.ob_poll.__doc__, ["sys::Poll::poll"], "timer drain loop unrolled twice", replay=["c01_routing_scenarios", "c05_timer_scenarios"])
+M_DELEG = M("delegation", OB.ob_delegation, OB.ob_delegation.__doc__, ["PingSource/Channel/Executor/StreamSource/Signals ::register/reregister/unregister"],
+            "all paths (loop-free)", replay=["c01_routing_scenarios", "p_chan_stress"])
 M_TOK = M("token", OB.ob_token, OB.ob_token.__doc__, TOKEN_FNS, "full 64-bit key space (bit-vector validity queries, no unrolling)",
           replay=["c01_routing_scenarios"])
 M_TM["stale"] = M("timer_stale", OB.ob_timer_stale, OB.ob_timer_stale.__doc__, ["<Timer as EventSource>::process_events"], "all paths",
@@ -387,7 +393,7 @@ P("C04", "model_checking", [], [M_CH["send"], M_CH["process"], M_PING["ping"], P
           "channel pairs with a blocked sender); weak memory; more than one sender thread in the interleaving query")
 addm("C05", [M_TM["wheel"], M_TM["timer"], M_TM["stale"], M_POLL])
 addm("C06", [M_H["remove"], M_H["disable"], M_H["update"], M_H["enable"], M_DE["rm3"], M_TOK])
-addm("C07", [M_H["disable"], M_H["enable"], M_DE["pa2"], M_DE["fsub"], M_DE["rm3"], M_TM["timer"]])
+addm("C07", [M_H["disable"], M_H["enable"], M_DE["pa2"], M_DE["fsub"], M_DE["rm3"], M_TM["timer"], M_DELEG])
 addm("C08", [M_DE["re1"], M_H["re2"], M_EX["process"], M_DE["pa2"], M_H["idles"], M_DE["rm3"], M_H["remove"]])
 addm("C09", [M_DE["pa2"], M_DE["pav"], M_H["disable"], M_H["update"]])
 P("C10", "model_checking", [], [M_EX["process"], M_EX["send"], M_EX["drop"], M_EX["stream"], P_Q["exec"]],
@@ -402,7 +408,7 @@ addm("C12", [M_DE["lc2"], M_TM["wheel"], M_TM["timer"], M_POLL])
 addm("C13", [M_H["idles"], M_H["insidle"]])
 addm("C14", [M_DE["lc2"], M_DE["fsub"], M_DE["rm3"]])
 addm("C15", [M_H["reg1"], M_IO["new"], M_DE["err1"], M_DE["err2"], M_DE["pa2"]])
-addm("C16", [M_IO["drop"], M_IO["new"], M_DE["rm3"]])
+addm("C16", [M_IO["drop"], M_IO["new"], M_DE["rm3"], M_DELEG])
 addm("C17", [M_IO["io"], M_IO["new"], M_IO["drop"]])
 for _p in ("C03",):
     PROPS[_p]["level"] = "model_checking"
